@@ -367,6 +367,7 @@ def run(ck):
     rng = random.Random(ck.seed)
     harness = ck.cxx("c10h", ["C10/harness.cxx"], sanitize=True)
     driver = ck.lean_exe("c10driver", "TfelVerif/C10/Driver.lean")
+    ck.log("model driver built")
     pc = ck.run([harness], input="consts\n")
     consts_line = pc.stdout.strip()
     cf = consts_line.split()
@@ -395,6 +396,7 @@ def run(ck):
         cases.append((c, co, gen_vp(rng, co)))
 
     lines, impl, model, crashed, err = run_batch(ck, harness, driver, consts_line, cases)
+    ck.log("%d cases (%d requests) run through implementation and model" % (len(cases), len(lines)))
     if crashed:
         ck.violation("harness-crash", "the implementation harness aborted (sanitizer report or crash) or lost lines",
                      {"stderr": err, "lines_in": len(lines), "lines_out": len(impl)}, False)
@@ -527,6 +529,7 @@ def run(ck):
             if not badi:
                 report("improve", 4 * k + 3, "improve answers differ bit-wise; |f| not increased", False)
 
+    ck.log("compared: %d disagreements, %d direct predicate checks" % (disagreements, direct_checked))
     for full, (_, rep, found, why) in sorted(failures.items()):
         key = full[5:] if full.startswith("corr:") else full
         if found:
